@@ -259,11 +259,19 @@ def clear_inactive_cache(
         cache_path = _default_cache_path
     if not cache_path.exists():
         return False
-    for dirname in os.listdir(cache_path):
+    try:
+        dirnames = os.listdir(cache_path)
+    except OSError:  # e.g. removed by another process in the meantime
+        return False
+    for dirname in dirnames:
         version_path = cache_path.joinpath(dirname)
-        if not version_path.is_dir():
+        try:
+            if not version_path.is_dir():
+                continue
+            files = list(os.scandir(version_path))
+        except OSError:
             continue
-        for file in os.scandir(version_path):
+        for file in files:
             try:
                 if file.stat().st_atime + _CACHED_FILE_MAXIMUM_SURVIVAL <= time.time():
                     os.remove(file.path)
@@ -295,6 +303,9 @@ def _remove_cache_and_update_lock(cache_path=None):
         clear_lock_time = os.path.getmtime(lock_path)
     except FileNotFoundError:
         clear_lock_time = None
+    except OSError:
+        # The lock file is not accessible, somebody else has to clean up.
+        return False
     if (
         clear_lock_time is None  # first time
         or clear_lock_time + _CACHE_CLEAR_THRESHOLD <= time.time()
